@@ -1,10 +1,11 @@
 //! C12 conformance harness: the real `humphrey_ws::async_app::AsyncWebsocketApp` driven by reference
 //! WebSocket clients (RFC 6455: handshake, masked frames, strict parsing of what the server sends).
 //!
-//!   wsasync random <runs> <first-run-id> [maxclients] [chatty] [bigpush]   free-running randomised scenarios
+//!   wsasync random <runs> <first-run-id> [maxclients] [chatty] [bigpush] [volley] [deadwrite]   randomised scenarios
 //!       (method C); the first `chatty` runs have a short heartbeat and one client that keeps sending for 2.5
 //!       timeout periods, the next `bigpush` runs push a burst of 256 KiB unicasts / broadcasts at idle clients of
-//!       which one reads late
+//!       which one reads late, then `volley` runs (several clients, several messages [+ Close] per write within one
+//!       10 ms poll interval), then `deadwrite` runs (unicasts and broadcasts flushed after a client vanished)
 //!       stdout: ndjson event log for Trace_WsAsyncApp.tla (one `Reset` record per run) and a final
 //!       {"summary":..} line
 //!   wsasync replay <settle-ms>                          lock-step replay of TLC behaviours (method D)
@@ -758,19 +759,28 @@ impl Client {
         }
     }
 
-    /// one data message: logged, then written as `frags` frames (optionally pausing between them)
-    fn send(&mut self, ctx: &Arc<Ctx>, frags: usize, pause_us: u64, big: bool) {
+    /// one data message: logged (C_Send), returned as its `frags` frames.  Payload lengths sit on the
+    /// boundaries of the length encodings now and then (125/126/127, 65535/65536/65537), text payloads
+    /// contain multi-byte characters now and then, fragments may be empty (also the first and the last one).
+    fn frames(&mut self, ctx: &Arc<Ctx>, frags: usize, big: bool, exact_len: Option<usize>) -> Vec<Vec<u8>> {
         self.sent += 1;
         let m = self.sent;
-        let n = match self.rng.below(12) {
-            0 => 0,
-            1 => 110 + self.rng.below(30),
-            2 if big => 65_520 + self.rng.below(40),
-            _ => self.rng.below(50),
-        };
-        let payload = format!("m|{}|{}|{}", self.id, m, "y".repeat(n));
-        let bytes = payload.as_bytes();
+        let head = format!("m|{}|{}|", self.id, m);
         let binary = self.rng.chance(1, 3);
+        let filler = match exact_len {
+            Some(n) => "y".repeat(n.saturating_sub(head.len())),
+            None => match self.rng.below(14) {
+                0 => String::new(),
+                1 => "y".repeat(110 + self.rng.below(30)),
+                2 => "y".repeat((*self.rng.pick(&[125usize, 126, 127])).saturating_sub(head.len())),
+                3 if big => "y".repeat((*self.rng.pick(&[65_535usize, 65_536, 65_537])).saturating_sub(head.len())),
+                4 if big => "y".repeat(65_520 + self.rng.below(40)),
+                5 if !binary => "\u{e9}\u{a0}\u{1F600}\u{663}\u{df}\u{3000}".repeat(1 + self.rng.below(4)),
+                _ => "y".repeat(self.rng.below(50)),
+            },
+        };
+        let payload = format!("{}{}", head, filler);
+        let bytes = payload.as_bytes();
         {
             let mut g = ctx.lock();
             g.up_tags.insert(tag(bytes), (self.id, m));
@@ -780,20 +790,68 @@ impl Client {
             r.n = frags as i64;
             g.events.push(r);
         }
-        let frags = frags.max(1).min(bytes.len().max(1));
+        let frags = frags.max(1);
         let mut cuts: Vec<usize> = (0..frags - 1).map(|_| self.rng.below(bytes.len() + 1)).collect();
+        if frags >= 2 && self.rng.chance(1, 4) {
+            cuts[0] = 0; // empty first fragment
+        }
+        if frags >= 3 && self.rng.chance(1, 4) {
+            cuts[1] = bytes.len(); // empty final fragment
+        }
         cuts.sort();
         cuts.push(bytes.len());
+        let mut out = vec![];
         let mut start = 0;
         for (i, end) in cuts.iter().enumerate() {
             let opcode = if i == 0 { if binary { 2 } else { 1 } } else { 0 };
             let fin = i == cuts.len() - 1;
             let key = [self.rng.byte(), self.rng.byte(), self.rng.byte(), self.rng.byte()];
-            self.write(&frame_bytes(fin, opcode, &bytes[start..*end], key));
+            out.push(frame_bytes(fin, opcode, &bytes[start..*end], key));
             start = *end;
-            if !fin && pause_us > 0 {
+        }
+        out
+    }
+
+    /// one data message, one write per frame (optionally pausing between the fragments)
+    fn send(&mut self, ctx: &Arc<Ctx>, frags: usize, pause_us: u64, big: bool) {
+        let fr = self.frames(ctx, frags, big, None);
+        let n = fr.len();
+        for (i, f) in fr.iter().enumerate() {
+            self.write(f);
+            if i + 1 < n && pause_us > 0 {
                 sleep(Duration::from_micros(pause_us));
             }
+        }
+    }
+
+    fn send_len(&mut self, ctx: &Arc<Ctx>, len: usize) {
+        for f in self.frames(ctx, 1, false, Some(len)) {
+            self.write(&f);
+        }
+    }
+
+    /// `n` data messages and, with `close`, the Close frame behind them, handed to the kernel in ONE write:
+    /// they reach the server within one poll interval, every message must be dispatched before the disconnect
+    fn volley(&mut self, ctx: &Arc<Ctx>, n: usize, close: bool) {
+        let mut buf = vec![];
+        for _ in 0..n {
+            let frags = if self.rng.chance(1, 4) { 2 } else { 1 };
+            for f in self.frames(ctx, frags, false, None) {
+                buf.extend_from_slice(&f);
+            }
+        }
+        if close {
+            self.quiet.store(true, Ordering::SeqCst);
+        }
+        let mut g = self.wr.lock().unwrap_or_else(|e| e.into_inner());
+        if close {
+            let mut r = rec("C_Close");
+            r.c = self.id;
+            ctx.push(r);
+            buf.extend_from_slice(&frame_bytes(true, 8, &[], [1, 2, 3, 4]));
+        }
+        if let Some(w) = g.as_mut() {
+            let _ = w.write_all(&buf);
         }
     }
 
@@ -991,10 +1049,18 @@ enum Op {
     Ping,
     /// keep sending: one message every `every_us` for `dur_ms`
     Chat { dur_ms: u64, every_us: u64 },
+    /// one message of exactly this many payload bytes
+    SendLen(usize),
+    /// wait until every client of the run reached this point (bounded), then n messages in one write
+    SyncVolley(usize),
+    /// n messages and the Close frame in one write
+    VolleyClose(usize),
 }
 
 #[derive(Clone, Debug)]
 enum EndOp {
+    /// the script already sent the Close frame
+    Closed,
     Close,
     VanishFin,
     VanishRst,
@@ -1030,6 +1096,12 @@ fn emit(events: &[Rec], run: i64) {
 fn random_run(run: i64, rng: &mut Rng, maxclients: usize, kind: u8) -> RunOut {
     let chatty = kind == 1;
     let bigpush = kind == 2;
+    // volley: several clients write several messages (some end with messages + Close) in ONE write each, at
+    //   the same moment, under the longest poll interval
+    let volley = kind == 3;
+    // deadwrite: client 1 vanishes (dropped or reset socket, no heartbeat); afterwards unicasts to it and
+    //   broadcasts are flushed: the others get every broadcast exactly once, client 1 is disconnected once
+    let deadwrite = kind == 4;
     let mut nclients = rng.range(1, maxclients);
     let mut workers = *rng.pick(&[1usize, 1, 2, 2, 3, 4, 5, 6, 7, 8]);
     let mut poll = match rng.below(4) {
@@ -1059,6 +1131,27 @@ fn random_run(run: i64, rng: &mut Rng, maxclients: usize, kind: u8) -> RunOut {
         internal = rng.chance(1, 3);
         big = false;
     }
+    if volley {
+        nclients = rng.range(3, 6).min(maxclients.max(3));
+        workers = *rng.pick(&[1usize, 2, 4]);
+        poll = Some(Duration::from_millis(10));
+        hb_on = false;
+        heartbeat = None;
+        big = false;
+    }
+    // a reset socket is noticed by the next read; a dropped one (FIN) reads as "nothing yet" for ever (Linux keeps
+    // answering read() with 0 once the FIN was seen, whatever is written to the socket afterwards), so only
+    // the heartbeat can reap it: that variant runs with the heartbeat on
+    let dead_rst = rng.chance(1, 2);
+    if deadwrite {
+        nclients = 3.min(maxclients.max(2));
+        workers = *rng.pick(&[1usize, 2]);
+        poll = Some(Duration::from_millis(rng.range(1, 5) as u64));
+        hb_on = !dead_rst;
+        heartbeat = if dead_rst { None } else { Some((Duration::from_millis(60), Duration::from_millis(180))) };
+        internal = rng.chance(1, 3);
+        big = false;
+    }
     let pol = |rng: &mut Rng, allow_uni: bool| -> Vec<String> {
         let n = *rng.pick(&[0usize, 1, 1, 1, 2]);
         (0..n).map(|_| if allow_uni && rng.chance(1, 2) { "uni".to_string() } else { "bc".to_string() }).collect()
@@ -1071,6 +1164,14 @@ fn random_run(run: i64, rng: &mut Rng, maxclients: usize, kind: u8) -> RunOut {
     }
     if bigpush {
         policy = [vec![], vec!["bc".to_string()], vec![]];
+        hsleep_us = 0;
+    }
+    if volley {
+        policy = [vec![], vec![if rng.chance(1, 2) { "uni" } else { "bc" }.to_string()], vec!["bc".to_string()]];
+        hsleep_us = *rng.pick(&[0usize, 200]);
+    }
+    if deadwrite {
+        policy = [vec![], vec![], vec!["bc".to_string()]];
         hsleep_us = 0;
     }
     let late_ms = rng.range(300, 600) as u64;
@@ -1088,6 +1189,7 @@ fn random_run(run: i64, rng: &mut Rng, maxclients: usize, kind: u8) -> RunOut {
     let mut server = start_server(&ctx, &cfg);
     let addrs: Arc<Mutex<HashMap<i64, SocketAddr>>> = Arc::new(Mutex::new(HashMap::new()));
     let failed = Arc::new(Mutex::new(Vec::<String>::new()));
+    let sync = Arc::new(AtomicUsize::new(0));
     let live = Arc::new(AtomicUsize::new(nclients));
     // scripts
     let mut handles = vec![];
@@ -1112,6 +1214,11 @@ fn random_run(run: i64, rng: &mut Rng, maxclients: usize, kind: u8) -> RunOut {
         };
         let mut late = rng.chance(1, 5);
         let (mut ops, mut end) = (ops, end);
+        if matches!(end, EndOp::Close) && rng.chance(1, 3) {
+            // the last messages and the Close frame leave in one write
+            ops.push(Op::VolleyClose(rng.range(1, 4)));
+            end = EndOp::Closed;
+        }
         if chatty {
             late = false;
             let span_ms = 180 * 5 / 2;
@@ -1121,18 +1228,44 @@ fn random_run(run: i64, rng: &mut Rng, maxclients: usize, kind: u8) -> RunOut {
         if bigpush {
             late = false;
             ops = if id == 2 {
-                vec![Op::Sleep(70_000), Op::Send { frags: 1, pause_us: 0 }, Op::Send { frags: 1, pause_us: 0 }, Op::Sleep((late_ms + 100) * 1000)]
+                // (the second message is 1 MiB: what the server reads may be large as well)
+                vec![Op::Sleep(70_000), Op::Send { frags: 1, pause_us: 0 }, Op::SendLen(1 << 20), Op::Sleep((late_ms + 100) * 1000)]
             } else {
                 vec![Op::Sleep((late_ms + 200) * 1000)]
             };
             end = EndOp::Stay;
         }
+        if volley {
+            late = false;
+            ops = vec![Op::Sleep(25_000), Op::SyncVolley(rng.range(2, 5)), Op::Sleep(rng.below(4000) as u64), Op::SyncVolley(rng.range(1, 4))];
+            if rng.chance(1, 2) {
+                ops.push(Op::Sleep(rng.below(15_000) as u64));
+                ops.push(Op::VolleyClose(rng.range(1, 4)));
+                end = EndOp::Closed;
+            } else {
+                ops.push(Op::Sleep(30_000));
+                end = if rng.chance(1, 2) { EndOp::Close } else { EndOp::Stay };
+            }
+        }
+        if deadwrite {
+            late = false;
+            if id == 1 {
+                ops = vec![Op::Sleep(50_000)];
+                end = if dead_rst { EndOp::VanishRst } else { EndOp::VanishFin };
+            } else {
+                ops = vec![Op::Sleep(260_000)];
+                end = EndOp::Stay;
+            }
+        }
         plans.push(json!({"c": id, "ops": format!("{:?}", ops), "end": format!("{:?}", end)}));
         let (ctx2, addrs2, failed2, live2) = (ctx.clone(), addrs.clone(), failed.clone(), live.clone());
         let (server_addr, path) = (server.addr, server.path);
         let seed = rng.next_u64();
+        let sync2 = sync.clone();
+        let nsync = nclients;
         handles.push(thread::spawn(move || -> Option<Client> {
             let mut out = None;
+            let mut sync_round = 1usize;
             let mut cl = match Client::connect(&ctx2, id, server_addr, path, seed) {
                 Ok(c) => c,
                 Err(e) => {
@@ -1158,6 +1291,18 @@ fn random_run(run: i64, rng: &mut Rng, maxclients: usize, kind: u8) -> RunOut {
                         }
                     }
                     Op::Ping => cl.ping(&ctx2),
+                    Op::SendLen(n) => cl.send_len(&ctx2, n),
+                    Op::SyncVolley(n) => {
+                        let round = sync_round;
+                        sync_round += 1;
+                        sync2.fetch_add(1, Ordering::SeqCst);
+                        let t0 = Instant::now();
+                        while sync2.load(Ordering::SeqCst) < nsync * round && t0.elapsed() < Duration::from_secs(3) {
+                            sleep(Duration::from_micros(200));
+                        }
+                        cl.volley(&ctx2, n, false);
+                    }
+                    Op::VolleyClose(n) => cl.volley(&ctx2, n, true),
                     Op::Chat { dur_ms, every_us } => {
                         let t0 = Instant::now();
                         while t0.elapsed() < Duration::from_millis(dur_ms) {
@@ -1172,7 +1317,7 @@ fn random_run(run: i64, rng: &mut Rng, maxclients: usize, kind: u8) -> RunOut {
                     cl.close(&ctx2);
                     out = Some(cl);
                 }
-                EndOp::Stay => out = Some(cl),
+                EndOp::Stay | EndOp::Closed => out = Some(cl),
                 EndOp::VanishFin => cl.vanish(&ctx2, false),
                 EndOp::VanishRst => cl.vanish(&ctx2, true),
             }
@@ -1202,6 +1347,28 @@ fn random_run(run: i64, rng: &mut Rng, maxclients: usize, kind: u8) -> RunOut {
         }
         sleep(Duration::from_millis(late_ms));
         ctx.holds[1].store(false, Ordering::SeqCst);
+    }
+    let mut never_removed = 0i64;
+    if deadwrite {
+        nx = 0;
+        ctx.wait_until(Duration::from_secs(5), |g| (1..=nclients).all(|c| g.admitted[c]));
+        ctx.wait_until(Duration::from_secs(5), |g| g.events.iter().any(|e| e.ev == "C_Vanish"));
+        let a1 = addrs.lock().unwrap().get(&1).copied();
+        for round in 0..4 {
+            if let (Some(a), true) = (a1, round != 2) {
+                xi += 1;
+                x_send(&ctx, &server.sender, xi, "uni", 1, Some(a));
+            }
+            xi += 1;
+            x_send(&ctx, &server.sender, xi, "bc", 0, None);
+            sleep(Duration::from_millis(12));
+        }
+        // the dead socket was written to at least twice (or reset at once): the error is there to be read.
+        // "must complete" direction only: a generous wait, then the End record says who is still in the map
+        // (a socket reset before its admission is dropped by the loop without ever being a stream)
+        if !ctx.wait_until(Duration::from_secs(10), |g| (g.removed[1] || !g.admitted[1]) && g.n_out == g.n_flushed) {
+            never_removed = 1;
+        }
     }
     let t0 = Instant::now();
     let mut x_times: Vec<u64> = (0..nx).map(|_| rng.below(40_000) as u64).collect();
@@ -1240,7 +1407,7 @@ fn random_run(run: i64, rng: &mut Rng, maxclients: usize, kind: u8) -> RunOut {
     // settle: everything written by a live client dispatched, closed clients removed, every handler done,
     // every queued message flushed (escalating wait; a shutdown before that is still a legal scenario)
     let sent: Vec<(i64, i64, bool)> = clients.iter().map(|c| (c.id, c.sent, c.quiet.load(Ordering::SeqCst))).collect();
-    let early = rng.chance(1, 5);
+    let early = rng.chance(1, 5) && !deadwrite;
     let settled = if early {
         false
     } else {
@@ -1268,27 +1435,39 @@ fn random_run(run: i64, rng: &mut Rng, maxclients: usize, kind: u8) -> RunOut {
     *CUR.lock().unwrap() = None;
     let mut end = rec("End");
     end.m = if returned && drained { 0 } else { 1 };
+    end.n = never_removed;
     end.k = if !returned { "run() did not return within 15 s of the shutdown signal".into() } else if !drained { "a dispatched handler did not run within 15 s".into() } else { String::new() };
     ctx.push(end);
     let events = ctx.lock().events.clone();
     RunOut {
         events,
         info: json!({"run": run, "clients": nclients, "workers": workers, "poll_us": poll.map(|d| d.as_micros() as i64).unwrap_or(-1),
-            "heartbeat": hb_on, "chatty": chatty, "bigpush": bigpush, "late_reader_ms": if bigpush { late_ms } else { 0 }, "internal_app": internal, "policy": policy, "hsleep_us": hsleep_us, "settled": settled, "early_shutdown": early,
+            "heartbeat": hb_on, "chatty": chatty, "bigpush": bigpush, "volley": volley, "deadwrite": deadwrite, "dead_by": if !deadwrite { "" } else if dead_rst { "rst" } else { "fin" }, "late_reader_ms": if bigpush { late_ms } else { 0 }, "internal_app": internal, "policy": policy, "hsleep_us": hsleep_us, "settled": settled, "early_shutdown": early,
             "returned": returned, "plans": plans, "ext": nx}),
         setup_failed,
     }
 }
 
-fn random_mode(runs: usize, first: i64, maxclients: usize, chatty_runs: usize, big_runs: usize) {
+fn random_mode(runs: usize, first: i64, maxclients: usize, special: [usize; 4]) {
     let mut rng = Rng::new(seed_from_env() ^ (first as u64).wrapping_mul(0x9E37_79B9));
     let mut total = 0usize;
     let mut retried = 0usize;
     let mut infos = vec![];
     let mut stats: HashMap<String, usize> = HashMap::new();
     let mut run = first;
-    while total < runs {
-        let kind = if total < chatty_runs { 1 } else if total < chatty_runs + big_runs { 2 } else { 0 };
+    let mut hung = 0;
+    // fail fast: after three runs in which run() did not return or a handler never ran, stop generating
+    while total < runs && hung < 3 {
+        // the special scenarios come first: special[k-1] runs of kind k (1 chatty, 2 bigpush, 3 volley, 4 deadwrite)
+        let mut kind = 0u8;
+        let mut acc = 0;
+        for (k, n) in special.iter().enumerate() {
+            acc += n;
+            if total < acc {
+                kind = (k + 1) as u8;
+                break;
+            }
+        }
         let out = random_run(run, &mut rng, maxclients, kind);
         if out.setup_failed {
             retried += 1;
@@ -1299,6 +1478,9 @@ fn random_mode(runs: usize, first: i64, maxclients: usize, chatty_runs: usize, b
             continue;
         }
         emit(&out.events, run);
+        if out.events.iter().any(|e| e.ev == "End" && e.m != 0) {
+            hung += 1;
+        }
         for e in &out.events {
             *stats.entry(e.ev.clone()).or_insert(0) += 1;
         }
@@ -1594,14 +1776,27 @@ fn replay_mode(settle_ms: u64) {
     let mut run = 1i64;
     let mut n_ok = 0;
     let mut n_fail = 0;
+    let mut hangs = 0;
     for line in stdin_lines() {
         let beh: Value = match serde_json::from_str(&line) {
             Ok(v) => v,
             Err(_) => continue,
         };
         let mut attempt = 0;
+        if hangs >= 3 {
+            // fail fast: the first hangs are reported, the rest of the batch is not run
+            out_line(&json!({"result": true, "run": run, "id": beh["id"], "ok": false, "iterations": 0, "steps": 0, "returned": false,
+                "start_order_differs_from_dispatch_order": false,
+                "fail": {"why": "not run: three behaviours of this batch hung before", "hang": true, "skipped": true}}));
+            n_fail += 1;
+            run += 1;
+            continue;
+        }
         loop {
             let (events, res) = replay_one(run, &beh, Duration::from_millis(settle_ms));
+            if res["fail"]["hang"] == json!(true) {
+                hangs += 1;
+            }
             let setup = res["fail"]["why"].as_str().map(|w| w.starts_with("setup:")).unwrap_or(false);
             if setup && attempt < 3 {
                 attempt += 1;
@@ -1630,9 +1825,8 @@ fn main() {
             let runs: usize = a.get(2).and_then(|s| s.parse().ok()).unwrap_or(5);
             let first: i64 = a.get(3).and_then(|s| s.parse().ok()).unwrap_or(1);
             let maxc: usize = a.get(4).and_then(|s| s.parse().ok()).unwrap_or(MAXC).min(MAXC).max(1);
-            let chatty: usize = a.get(5).and_then(|s| s.parse().ok()).unwrap_or(0);
-            let bigr: usize = a.get(6).and_then(|s| s.parse().ok()).unwrap_or(0);
-            random_mode(runs, first, maxc, chatty, bigr)
+            let sp = |i: usize| -> usize { a.get(i).and_then(|s| s.parse().ok()).unwrap_or(0) };
+            random_mode(runs, first, maxc, [sp(5), sp(6), sp(7), sp(8)])
         }
         Some("replay") => replay_mode(a.get(2).and_then(|s| s.parse().ok()).unwrap_or(3)),
         _ => {
